@@ -6,10 +6,15 @@ against the *original* file.  `C04_aligned` shows the two agree: the stripped te
 source with some characters replaced by exactly as many blanks as they have UTF-8 bytes, so
 every non-blank character keeps its byte offset, the total length is unchanged, and the start
 and end of every token of the stripped text are character boundaries of the source.
-The remaining clauses of C04 (labels produced by later stages) are checked by the label audit
-of `checks/c04.py` on the real pipeline.
+For findings about statements that desugaring synthesises, `C04_desugar_locations` shows that no
+location is invented: every source range on a node of a desugared template is the range of a node
+of the template as written (`Lemmas/DesugarMetas.lean`, on the desugaring model of C18, which is
+compared node by node, locations included, with the real desugarer on every generated definition).
+The remaining clauses of C04 (which construct a pass chooses for its label) are checked by the label
+audit of `checks/c04.py` on the real pipeline.
 -/
 import Circomspect.Lemmas.StripLemmas
+import Circomspect.Lemmas.DesugarMetas
 
 namespace Circomspect.C04
 open Circomspect Strip StripSpec StripLemmas
@@ -48,5 +53,24 @@ theorem C04_prefix_offsets {s o : List Char} (h : Aligned s o) :
 /-- the error location of an unclosed comment is the byte offset of its opener in the source,
     also after multi-byte text -/
 example : same (strip ['é', '/', '*', 'é']) (.error 2) = true := by decide
+
+/-- **desugaring only copies locations**: every source range carried by a node (statement, expression, access) of the desugared
+    body of a template is a source range carried by a node of the body as written — for every template, every table of templates
+    and every position of tuples and anonymous components, in loops and branches.  So a finding about a generated statement (the
+    declaration and the assignments of an anonymous component, the element-wise assignments of a tuple, the counter of a loop) is
+    located at a construct of the source text, never at a computed range. -/
+theorem C04_desugar_locations (tbl : List Desugar.TemplateSig) (body s' : Desugar.Stmt)
+    (h : Desugar.desugarTemplate tbl body = .ok s') : ∀ m, m ∈ Desugar.metasS s' → m ∈ Desugar.metasS body :=
+  Desugar.desugarTemplate_metas tbl body s' h
+
+/-- non-vacuity: `{ o <== U()(a); }` at 10–30 with the anonymous component at 16–28 desugars (to a declaration, an instantiation
+    and two assignments), and all the locations of the result are 10–30, 16–28, 12–29 or that of `a` -/
+def exLocBody : Desugar.Stmt :=
+  .block (10, 30) (.cons (.sub (12, 29) "o" .nil .csig
+    (.anon (16, 28) "1_16" "U" .nil (.cons (.var (26, 27) "a" .nil) .nil) none false)) .nil)
+example : ∃ s', Desugar.desugarTemplate [⟨"U", ["in"], ["out"]⟩] exLocBody = .ok s' := ⟨_, rfl⟩
+example : (match Desugar.desugarTemplate [⟨"U", ["in"], ["out"]⟩] exLocBody with
+    | .ok s' => (Desugar.metasS s').all (fun m => [(10, 30), (16, 28), (12, 29), (26, 27)].contains m)
+    | .error _ => false) = true := by rfl
 
 end Circomspect.C04
